@@ -52,7 +52,8 @@ CONSTANTS
   Legal,         \* BOOLEAN: the peer sends only legal WINDOW_UPDATE / SETTINGS
   Resets,        \* BOOLEAN: the peer may give a stream up (RST_STREAM)
   BurstMin,      \* frames a peer must send back to back before deviation LoopBudget can apply
-  Deviations     \* open findings switched on (known_findings.json): "LoopBudget", "ResetDropsFrameTail"
+  Deviations     \* open findings switched on (known_findings.json): "LoopBudget", "ResetDropsFrameTail";
+                 \* refuted slips (self-test, never on in conformance): "WuWakesFromZeroOnly", "AckWakesFromZeroOnly"
 
 VARIABLES
   pend,      \* settings the peer sent and sozu has not acknowledged yet (FIFO)
@@ -82,10 +83,12 @@ VARIABLES
   last,      \* ghost: the frame sozu has just put on the wire
   stall,     \* ghost: the observer has just seen sozu silent for its whole deadline
   burst,     \* frames the peer has sent since sozu was last seen idle (counted only under LoopBudget)
-  dropped    \* sozu abandoned the connection (closed it without GOAWAY) while streams were unfinished
+  dropped,   \* sozu abandoned the connection (closed it without GOAWAY) while streams were unfinished
+  armed      \* sozu's body writer will run: write_streams is EVENT-driven (Ready::WRITABLE is withdrawn when a pass
+             \* wrote nothing, finalize_write); every event that reopens a window has to arm it again (arm_writable)
 
 vars == <<pend, nset, eff, connWin, strWin, ids, sst, pst, rem, up, nextOurs, lastPeer, cont, needUpd,
-          advInit, advConn, advStr, oweConn, oweStr, enl, ourSet, starved, errOwed, dead, last, stall, burst, dropped>>
+          advInit, advConn, advStr, oweConn, oweStr, enl, ourSet, starved, errOwed, dead, last, stall, burst, dropped, armed>>
 
 -----------------------------------------------------------------------------
 Min(a, b) == IF a < b THEN a ELSE b
@@ -113,7 +116,7 @@ Init ==
   /\ advInit = ConnInit /\ advConn = ConnInit /\ advStr = <<>>
   /\ oweConn = 0 /\ oweStr = <<>> /\ enl = RecvConn - ConnInit /\ ourSet = FALSE
   /\ starved = <<>> /\ errOwed = {} /\ dead = FALSE
-  /\ last = NoFrame /\ stall = FALSE /\ burst = 0 /\ dropped = FALSE
+  /\ last = NoFrame /\ stall = FALSE /\ burst = 0 /\ dropped = FALSE /\ armed = TRUE
 
 \* a new stream s enters every per-stream function
 NewStream(s, ss, ps, b, u) ==
@@ -126,10 +129,24 @@ NewStream(s, ss, ps, b, u) ==
   /\ starved' = starved @@ (s :> FALSE)
 
 \* a frame from the peer: no sozu frame in this step; the burst grows (only tracked under LoopBudget)
-Quiet == /\ last' = NoFrame /\ stall' = FALSE /\ UNCHANGED dropped
-         /\ burst' = (IF "LoopBudget" \in Deviations THEN Min(burst + 1, BurstMin) ELSE 0)
+\* (a = whether sozu's writer is armed afterwards)
+QuietA(a) == /\ last' = NoFrame /\ stall' = FALSE /\ UNCHANGED dropped /\ armed' = a
+             /\ burst' = (IF "LoopBudget" \in Deviations THEN Min(burst + 1, BurstMin) ELSE 0)
+Quiet == QuietA(armed)
 \* a frame from sozu
-Said(f) == last' = f /\ stall' = FALSE /\ UNCHANGED <<burst, dropped>>
+SaidA(f, a) == last' = f /\ stall' = FALSE /\ UNCHANGED <<burst, dropped>> /\ armed' = a
+Said(f) == SaidA(f, armed)
+
+\* The writer of sozu is event-driven.  A pass of write_streams that finds no stream with something it may send
+\* (body bytes inside min(stream window, connection window), or the END_STREAM of a finished body) withdraws
+\* Ready::WRITABLE: the writer is parked (Sozu_Park).  From then on only an EVENT starts it again, so every event
+\* that takes a send window from "closed" (<= 0: exhausted, or NEGATIVE after a SETTINGS_INITIAL_WINDOW_SIZE
+\* decrease under in-flight data, RFC 9113 6.9.2) to "open" (> 0) must arm it: a peer WINDOW_UPDATE
+\* (handle_window_update_frame), an acknowledged SETTINGS increase (update_initial_window_size).  Refuted slips:
+\* the condition written as "the window WAS ZERO" - right for every schedule in which windows only run down to 0,
+\* wrong as soon as one went negative (the transfer then stalls for ever although the peer granted credit).
+CanWrite(s) == s \in ids /\ sst[s] = "open" /\ (rem[s] = 0 \/ Min(strWin[s], connWin) > 0)
+Reopens(dev, before, after) == after > 0 /\ (IF dev \in Deviations THEN before = 0 ELSE before <= 0)
 
 -----------------------------------------------------------------------------
 (* The peer *)
@@ -172,7 +189,8 @@ E_PeerWindowUpdate(x, n) ==
      ELSE /\ connWin' = (IF x = 0 THEN connWin + n ELSE connWin)
           /\ strWin' = (IF x = 0 THEN strWin ELSE [strWin EXCEPT ![x] = @ + n])
           /\ UNCHANGED errOwed
-  /\ Quiet
+  /\ QuietA(armed \/ (~WuIllegal(x, n) /\ IF x = 0 THEN Reopens("ConnWuWakesFromZeroOnly", connWin, connWin + n)
+                                                   ELSE x \in ids /\ Reopens("WuWakesFromZeroOnly", strWin[x], strWin[x] + n)))
   /\ UNCHANGED <<pend, nset, eff, ids, sst, pst, rem, up, nextOurs, lastPeer, cont, needUpd, advInit, advConn,
                  advStr, oweConn, oweStr, enl, ourSet, starved, dead>>
 Peer_WindowUpdate(x, n) == G_PeerWindowUpdate(x, n) /\ E_PeerWindowUpdate(x, n)
@@ -240,7 +258,7 @@ E_SozuAck ==
   IN /\ pend' = Tail(pend) /\ eff' = v
      /\ strWin' = [s \in ids |-> IF Live(s) THEN strWin[s] + d ELSE strWin[s]]
      /\ needUpd' = (needUpd \/ v.tbl < eff.tbl)
-     /\ Said(Frame("A", 0, 0))
+     /\ SaidA(Frame("A", 0, 0), armed \/ \E s \in ids : Live(s) /\ Reopens("AckWakesFromZeroOnly", strWin[s], strWin[s] + d))
      /\ UNCHANGED <<nset, connWin, ids, sst, pst, rem, up, nextOurs, lastPeer, cont, advInit, advConn, advStr,
                     oweConn, oweStr, enl, ourSet, starved, errOwed, dead>>
 Sozu_AckSettings == G_SozuAck /\ E_SozuAck
@@ -285,7 +303,8 @@ E_SozuHeaders(s, b, n, eh, es, upd) ==
           /\ nextOurs' = s + 2
   /\ cont' = (IF eh THEN 0 ELSE s)
   /\ needUpd' = (needUpd /\ upd < 0)
-  /\ Said([k |-> "H", sid |-> s, len |-> n, upd |-> upd, need |-> needUpd, new |-> s \notin ids, pre |-> Pre(s), pc |-> cont])
+  /\ SaidA([k |-> "H", sid |-> s, len |-> n, upd |-> upd, need |-> needUpd, new |-> s \notin ids, pre |-> Pre(s), pc |-> cont],
+           TRUE)      \* a head arrived from the other side of the proxy: the writer is running
   /\ UNCHANGED <<pend, nset, eff, connWin, lastPeer, advInit, advConn, oweConn, enl, ourSet, errOwed, dead>>
 Sozu_SendHeaders(s, b, n, eh, es, upd) == G_SozuHeaders(s, b, n, eh, es, upd) /\ E_SozuHeaders(s, b, n, eh, es, upd)
 
@@ -311,7 +330,15 @@ E_SozuData(s, n, es) ==
   /\ Said(Frame("D", s, n))
   /\ UNCHANGED <<pend, nset, eff, ids, pst, up, nextOurs, lastPeer, cont, needUpd, advInit, advConn, advStr,
                  oweConn, oweStr, enl, ourSet, starved, errOwed, dead>>
-Sozu_SendData(s, n, es) == G_SozuData(s, n, es) /\ E_SozuData(s, n, es)
+Sozu_SendData(s, n, es) == armed /\ G_SozuData(s, n, es) /\ E_SozuData(s, n, es)
+
+\* a pass of the writer that finds nothing it may send parks it (finalize_write withdraws Ready::WRITABLE)
+G_SozuPark == armed /\ ~dead /\ \A s \in ids : ~CanWrite(s)
+E_SozuPark ==
+  /\ armed' = FALSE /\ last' = NoFrame /\ stall' = FALSE /\ UNCHANGED <<burst, dropped>>
+  /\ UNCHANGED <<pend, nset, eff, connWin, strWin, ids, sst, pst, rem, up, nextOurs, lastPeer, cont, needUpd, advInit,
+                 advConn, advStr, oweConn, oweStr, enl, ourSet, starved, errOwed, dead>>
+Sozu_Park == G_SozuPark /\ E_SozuPark
 
 \* WINDOW_UPDATE from sozu.  Connection (x = 0): the one-off enlargement ConnInit -> RecvConn and/or a
 \* credit of everything received since the last one, once that reaches half the configured window
@@ -350,14 +377,14 @@ SozuOwes ==
   \/ ~dead /\ \E s \in ids : pst[s] = "open" /\ up[s] > 0 /\ oweStr[s] > 0
 
 G_Stall == ~SozuOwes
-E_Stall == stall' = TRUE /\ last' = NoFrame /\ UNCHANGED <<burst, dropped>>
+E_Stall == stall' = TRUE /\ last' = NoFrame /\ UNCHANGED <<burst, dropped, armed>>
            /\ UNCHANGED <<pend, nset, eff, connWin, strWin, ids, sst, pst, rem, up, nextOurs, lastPeer, cont,
                           needUpd, advInit, advConn, advStr, oweConn, oweStr, enl, ourSet, starved, errOwed, dead>>
 Env_Stall == G_Stall /\ ~stall /\ E_Stall
 
 \* the observer saw sozu idle: it answered a PING sent after the peer's last frame and owes nothing
 G_Idle == ~SozuOwes
-E_Idle == burst' = 0 /\ last' = NoFrame /\ stall' = FALSE /\ UNCHANGED dropped
+E_Idle == burst' = 0 /\ last' = NoFrame /\ stall' = FALSE /\ UNCHANGED <<dropped, armed>>
           /\ UNCHANGED <<pend, nset, eff, connWin, strWin, ids, sst, pst, rem, up, nextOurs, lastPeer, cont,
                          needUpd, advInit, advConn, advStr, oweConn, oweStr, enl, ourSet, starved, errOwed, dead>>
 Env_Idle == G_Idle /\ burst > 0 /\ E_Idle
@@ -374,7 +401,7 @@ G_SozuClose == dead \/ Finished \/ ("LoopBudget" \in Deviations /\ burst >= Burs
 E_SozuClose ==
   /\ dropped' = (dropped \/ ~(dead \/ Finished))
   /\ dead' = TRUE /\ errOwed' = {} /\ pend' = <<>>
-  /\ last' = NoFrame /\ stall' = FALSE /\ UNCHANGED burst
+  /\ last' = NoFrame /\ stall' = FALSE /\ UNCHANGED <<burst, armed>>
   /\ UNCHANGED <<nset, eff, connWin, strWin, ids, sst, pst, rem, up, nextOurs, lastPeer, cont, needUpd, advInit,
                  advConn, advStr, oweConn, oweStr, enl, ourSet, starved>>
 Sozu_Close == G_SozuClose /\ ~dead /\ E_SozuClose
@@ -385,7 +412,7 @@ Sozu_Close == G_SozuClose /\ ~dead /\ E_SozuClose
 \* rest of that frame: the framing of the whole connection is lost (spec/H2Wire.tla, Peer_Reset).
 G_SozuGarble == "ResetDropsFrameTail" \in Deviations /\ CutMidBody
 E_SozuGarble ==
-  /\ last' = [NoFrame EXCEPT !.k = "Z"] /\ stall' = FALSE /\ UNCHANGED <<burst, dropped>>
+  /\ last' = [NoFrame EXCEPT !.k = "Z"] /\ stall' = FALSE /\ UNCHANGED <<burst, dropped, armed>>
   /\ UNCHANGED <<pend, nset, eff, connWin, strWin, ids, sst, pst, rem, up, nextOurs, lastPeer, cont, needUpd, advInit,
                  advConn, advStr, oweConn, oweStr, enl, ourSet, starved, errOwed, dead>>
 Sozu_Garble == G_SozuGarble /\ E_SozuGarble
@@ -414,7 +441,7 @@ PeerNext ==
   \/ \E s \in Ids : Peer_Starve(s)
   \/ \E s \in Ids : Peer_Rst(s)
 
-Next == SozuNext \/ PeerNext \/ Env_Stall \/ Env_Idle
+Next == SozuNext \/ PeerNext \/ Env_Stall \/ Env_Idle \/ Sozu_Park
 Spec == Init /\ [][Next]_vars
 
 -----------------------------------------------------------------------------
@@ -428,7 +455,7 @@ TypeOK ==
                     /\ rem[s] \in Nat /\ up[s] \in Nat /\ oweStr[s] \in Nat
   /\ connWin <= MaxWin /\ \A s \in ids : strWin[s] <= MaxWin
   /\ cont \in ids \cup {0} /\ errOwed \subseteq ids \cup {0}
-  /\ oweConn \in Nat /\ enl \in Nat
+  /\ oweConn \in Nat /\ enl \in Nat /\ armed \in BOOLEAN
 
 \* Flow control (RFC 9113 6.9.1, 6.9.2): a DATA frame never takes a window below zero.  A window can only
 \* be negative through a SETTINGS change (the step that changes eff), never through DATA.  Stated twice: on
@@ -482,6 +509,12 @@ P_C14_Progress == stall => ~SozuOwes
 
 \* a connection with unfinished streams is never abandoned (closed without the GOAWAY an illegal peer earns)
 P_C14_NeverDropped == ~dropped
+
+\* the writer is never parked while a stream has something it may send: whatever reopened the window armed it.
+\* (Model level.  In the implementation `armed` is not visible: there the same thing is the Stall event judged by
+\* P_C14_Progress - sozu silent, although the worker has handled every frame of the peer, while the ledger says
+\* it may send.)
+P_C14_WriterAwake == ~dead => \A s \in ids : CanWrite(s) /\ pst[s] # "cancel" => armed
 
 \* vacuity guard of the above: whatever is owed can be done
 P_C14_OwedIsEnabled == SozuOwes => ENABLED SozuNext
